@@ -64,13 +64,19 @@ AsString(x) == CASE x.t = "s" -> x.v
 (* datasets: ds = [row |-> [id -> row], names |-> [id -> the id as a string (unit sequence)]] ;
    row = [s, n, m, f, b, t : typed value or Nil, roles : set of strings, boss : an id or "" (none),
           peers : set of ids, tags : [key -> typed value or Nil]]
-   A symbol is a sequence of segments: <<"s">>, <<"boss", "s">>, <<"peers", "roles">>, <<"tags", "k">> ...          *)
+   A symbol is a sequence of segments: <<"s">>, <<"boss", "s">>, <<"peers", "roles">>, <<"tags", "k">> ...
+   A second entity type, places (one string field s), is reached through the link set `places` of a row:
+   ds.pl = [of |-> [row id -> set of place ids], row |-> [place id -> [s]], names |-> [place id -> id string]];
+   dotted chains then cross entity types (boss.places.s, peers.places), and a sub-query over such a set
+   is evaluated against the place type.                                                                     *)
 
 RowIds(ds) == DOMAIN ds.row
 IdStr(ds, id) == ds.names[id]
 BossOf(ds, id) == IF ds.row[id].boss \in RowIds(ds) THEN ds.row[id].boss ELSE ""
 
-IsSetSym(sym) == \E i \in 1..Len(sym) : sym[i] \in {"roles", "peers"}
+PlacesOf(ds, id) == ds.pl.of[id]       \* (total on the row ids)
+
+IsSetSym(sym) == \E i \in 1..Len(sym) : sym[i] \in {"roles", "peers", "places"}
 
 \* value of a non-set symbol for row id (Nil when absent)
 RECURSIVE Val(_, _, _)
@@ -88,6 +94,9 @@ Elems(ds, id, sym) ==
   LET h == sym[1] IN
   CASE h = "roles" -> LET q == SetToSeq(ds.row[id].roles) IN [i \in 1..Len(q) |-> S(q[i])]
     [] h = "boss" -> IF BossOf(ds, id) = "" THEN << >> ELSE Elems(ds, BossOf(ds, id), Tail(sym))
+    [] h = "places" -> LET q == SetToSeq(PlacesOf(ds, id)) IN
+                       IF Len(sym) = 1 \/ sym[2] = "id" THEN [i \in 1..Len(q) |-> S(ds.pl.names[q[i]])]
+                       ELSE [i \in 1..Len(q) |-> ds.pl.row[q[i]].s]
     [] h = "peers" -> LET q == SetToSeq(ds.row[id].peers) IN
                       IF Len(sym) = 1 THEN [i \in 1..Len(q) |-> S(IdStr(ds, q[i]))]
                       ELSE IF IsSetSym(Tail(sym)) THEN FlattenSeq([i \in 1..Len(q) |-> Elems(ds, q[i], Tail(sym))])
@@ -95,7 +104,15 @@ Elems(ds, id, sym) ==
 
 \* the ids an id-valued set symbol leads to (sub-queries)
 PeerIds(ds, id, sym) == IF sym = <<"peers">> THEN ds.row[id].peers
-                        ELSE IF sym = <<"boss", "peers">> /\ BossOf(ds, id) # "" THEN ds.row[BossOf(ds, id)].peers ELSE {}
+                        ELSE IF sym = <<"boss", "peers">> /\ BossOf(ds, id) # "" THEN ds.row[BossOf(ds, id)].peers
+                        ELSE IF sym = <<"places">> THEN PlacesOf(ds, id)
+                        ELSE IF sym = <<"boss", "places">> /\ BossOf(ds, id) # "" THEN PlacesOf(ds, BossOf(ds, id)) ELSE {}
+\* the dataset a sub-query over sym is evaluated against: the elements of a places set are places, not rows
+PlaceDs(ds) == [name |-> ds.name, names |-> ds.pl.names,
+                row |-> [p \in DOMAIN ds.pl.row |-> [s |-> ds.pl.row[p].s, n |-> Nil, m |-> Nil, f |-> Nil, b |-> Nil, t |-> Nil, roles |-> {},
+                                                     boss |-> "", peers |-> {}, tags |-> << >>]],
+                pl |-> [of |-> [p \in DOMAIN ds.pl.row |-> {}], row |-> << >>, names |-> << >>]]
+SubDs(ds, sym) == IF sym[Len(sym)] = "places" THEN PlaceDs(ds) ELSE ds
 
 -----------------------------------------------------------------------------
 (* comparisons *)
@@ -138,7 +155,7 @@ Test(a, symType, x) ==
 SymType(sym) ==
   LET l == sym[Len(sym)] IN
   IF \E i \in 1..Len(sym) : sym[i] = "tags" THEN "any"
-  ELSE CASE l \in {"id", "s", "boss", "roles", "peers"} -> "s"
+  ELSE CASE l \in {"id", "s", "boss", "roles", "peers", "places"} -> "s"
          [] l \in {"n", "m"} -> "n"
          [] l = "f" -> "f"
          [] l = "b" -> "b"
@@ -195,8 +212,8 @@ Eval(ds, id, f) ==
          IN IF outer THEN ~r ELSE r
     [] f.k = "count" -> CmpVals("num", f.op, N(Len(Elems(ds, id, f.sym))), f.n)
     [] f.k = "isEmpty" -> Len(Elems(ds, id, f.sym)) = 0
-    [] f.k = "countq" -> CmpVals("num", f.op, N(Len(Answer(ds, PeerIds(ds, id, f.sym), f.q).ids)), f.n)
-    [] f.k = "isEmptyq" -> Len(Answer(ds, PeerIds(ds, id, f.sym), f.q).ids) = 0
+    [] f.k = "countq" -> CmpVals("num", f.op, N(Len(Answer(SubDs(ds, f.sym), PeerIds(ds, id, f.sym), f.q).ids)), f.n)
+    [] f.k = "isEmptyq" -> Len(Answer(SubDs(ds, f.sym), PeerIds(ds, id, f.sym), f.q).ids) = 0
     [] f.k = "and" -> Eval(ds, id, f.l) /\ Eval(ds, id, f.r)
     [] f.k = "or" -> Eval(ds, id, f.l) \/ Eval(ds, id, f.r)
     [] f.k = "not" -> ~Eval(ds, id, f.e)
